@@ -28,6 +28,8 @@ type SpecEnv struct {
 	callerFrame *Frame
 	inOld       bool
 	localsCurrent bool
+	ssaArgs     map[string]ssa.Value // callee parameter name -> SSA argument (call-site evaluation)
+	facts       *[]string            // inside a quantifier: valid side facts about terms mentioning the bound variable
 	tolerant    *[]string // when set, evaluation errors are collected here instead of breaking the unit
 	errs        []string
 }
@@ -392,6 +394,7 @@ func (x *Exec) selectField(env *SpecEnv, v specVal, name string) specVal {
 				continue
 			}
 			cur = specVal{term: x.loadField(st, stt, idx, cur.term), typ: ft}
+			x.specLoaded(env, st, ft, cur.term)
 			implicitPtr = false
 		} else {
 			ft := cur.typ.Underlying().(*types.Struct).Field(idx).Type()
@@ -482,6 +485,27 @@ func (x *Exec) evalBinary(env *SpecEnv, b *ast.BinaryExpr) specVal {
 	return env.fail("unsupported binary %s on %s", b.Op, l.typ)
 }
 
+// specLoaded records the allocation-order fact for a pointer the specification reads out of
+// memory: a pointer stored in the heap of a state cannot refer to an object allocated after that
+// state (ids -(n+1), -(n+2), ... are handed out in allocation order; the entry state has n = 0).
+// The fact is valid in every real execution, so it may be assumed wherever the term occurs: inside
+// a quantifier it guards the body, outside it is assumed on the current path.
+func (x *Exec) specLoaded(env *SpecEnv, st *State, t types.Type, term string) {
+	if _, ok := t.Underlying().(*types.Pointer); !ok {
+		return
+	}
+	n := x.objCtr
+	if env.inOld && env.old != nil && st == env.old {
+		n = env.old.objN
+	}
+	f := fmt.Sprintf("(or (not ((_ is pobj) %s)) (>= (pobj_id %s) (- %d)))", term, term, n)
+	if env.facts != nil {
+		*env.facts = append(*env.facts, f)
+	} else if env.st != nil {
+		x.assume(env.st, f)
+	}
+}
+
 func (x *Exec) evalIndex(env *SpecEnv, ie *ast.IndexExpr) specVal {
 	st := env.st
 	if env.inOld && env.old != nil {
@@ -498,7 +522,9 @@ func (x *Exec) evalIndex(env *SpecEnv, ie *ast.IndexExpr) specVal {
 		_, _, vm := x.mapVal(st, v.typ)
 		// a nil map has no entries
 		has := fmt.Sprintf("(and (not (= %s 0)) (select (select %s %s) %s))", v.term, hm, v.term, i.term)
-		return specVal{term: ite(has, fmt.Sprintf("(select (select %s %s) %s)", vm, v.term, i.term), x.vc.zero(u.Elem())), typ: u.Elem()}
+		mv := fmt.Sprintf("(select (select %s %s) %s)", vm, v.term, i.term)
+		x.specLoaded(env, st, u.Elem(), mv)
+		return specVal{term: ite(has, mv, x.vc.zero(u.Elem())), typ: u.Elem()}
 	case *types.Basic:
 		return specVal{term: fmt.Sprintf("(str_at %s %s)", v.term, i.term), typ: types.Typ[types.Byte]}
 	case *types.Array:
@@ -562,8 +588,13 @@ func (x *Exec) evalCall(env *SpecEnv, c *ast.CallExpr) specVal {
 				sub := env.sub()
 				q := vc.fresh("q_" + iv.Name)
 				sub.names[iv.Name] = specVal{term: q, typ: tInt}
+				var facts []string
+				sub.facts = &facts
 				body := x.evalBool(sub, c.Args[3])
 				rng := fmt.Sprintf("(and (<= %s %s) (< %s %s))", lo.term, q, q, hi.term)
+				if len(facts) > 0 {
+					rng = fmt.Sprintf("(and %s %s)", rng, strings.Join(facts, " "))
+				}
 				if id.Name == "forall" {
 					return specVal{term: fmt.Sprintf("(forall ((%s Int)) (=> %s %s))", q, rng, body), typ: tBool}
 				}
@@ -581,10 +612,17 @@ func (x *Exec) evalCall(env *SpecEnv, c *ast.CallExpr) specVal {
 				sub := env.sub()
 				q := vc.fresh("q_" + iv.Name)
 				sub.names[iv.Name] = specVal{term: q, typ: ty}
+				var facts []string
+				sub.facts = &facts
 				body := x.evalBool(sub, c.Args[2])
 				kw := "forall"
 				if id.Name == "exists" {
 					kw = "exists"
+					if len(facts) > 0 {
+						body = fmt.Sprintf("(and %s %s)", strings.Join(facts, " "), body)
+					}
+				} else if len(facts) > 0 {
+					body = fmt.Sprintf("(=> (and %s) %s)", strings.Join(facts, " "), body)
 				}
 				return specVal{term: fmt.Sprintf("(%s ((%s %s)) %s)", kw, q, vc.sortOf(ty), body), typ: tBool}
 			}
@@ -964,6 +1002,7 @@ func (x *Exec) callByContractSpec(fr *Frame, st *State, fc *FuncContract, fn *ss
 		env.names["recv"] = specVal{term: args[0], typ: argTypes[0]}
 	}
 	pre := st.clone()
+	pre.objN = x.objCtr
 	env.old = pre
 	for _, l := range fc.Lets {
 		env.names[l.Name] = x.evalSpec(env, l.Expr)
